@@ -6,7 +6,7 @@
    (complex numbers are pairs of reals).  The gate theorems depend on the standard
    library's real-number axioms only; the tracker and cache theorems are closed. *)
 From Coq Require Import Reals List Arith Bool ZArith Permutation String.
-From QV Require Import Base.Sums C07.CMat C07.Ctrl C07.GatesGen C07.GateProofs C07.Model C07.Proofs C07.Mutators C07.Inventory C07.LightconeModel C07.Lightcone.
+From QV Require Import Base.Sums C07.CMat C07.Ctrl C07.GatesGen C07.GateProofs C07.Model C07.Proofs C07.Mutators C07.Inventory C07.LightconeModel C07.Lightcone C07.RecordModel C07.Record.
 Import ListNotations.
 Close Scope R_scope.
 Open Scope nat_scope.
@@ -164,6 +164,34 @@ Theorem C07_lightcone_dataflow_sound_partial :
     run_all V gs s k = run_cone V gs (fst (lightcone (map fst gs) (cone_of where_))) s k.
 Proof. exact lightcone_dataflow_sound. Qed.
 Print Assumptions C07_lightcone_dataflow_sound_partial.
+
+(* ---- ownership of the canonical-form record of the MPS simulators -------------- *)
+(* Simulators hold an MPS (abstracted to its true centre) and a reference to an info dict
+   recording the centre.  For every history of gates / canonicalising queries (RTouch), queries
+   that canonicalise a converted copy together with a COPY of the record (RQueryOnCopy =
+   local_expectation(dtype=...) / convert_eager=False since fcc41fff) and deep copies
+   (RCopyDeep = CircuitBase.copy with tree_map) on ANY of the simulators: no two
+   simulators share an info dict and every record is true - whatever is done to a copy
+   leaves the original's record (hence its canonical shortcuts) right, and vice versa. *)
+Theorem C07_mps_records_owned_and_true : forall c ops, forallb sound_op ops = true ->
+  let w := rrun (init_world c) ops in
+  NoDup (map s_info (sims w)) /\ all_records_true w = true.
+Proof. exact records_owned_and_true. Qed.
+Print Assumptions C07_mps_records_owned_and_true.
+
+(* deep copying is necessary: with a shared info dict an operation on the copy falsifies
+   the original's record *)
+Theorem C07_record_needs_deep_copy :
+  all_records_true (rrun (init_world 2) [RCopyShallow 0; RTouch 1 5]) = false.
+Proof. exact shallow_copy_breaks_record. Qed.
+Print Assumptions C07_record_needs_deep_copy.
+
+(* the copied record is necessary: the pre-fcc41fff dtype / convert_eager=False path (a copy of the
+   MPS is canonicalised but the simulator's OWN record is written) falsifies the record *)
+Theorem C07_record_needs_copied_record_for_converted_query :
+  all_records_true (rrun (init_world 2) [RTouchCopyOnly 0 0]) = false.
+Proof. exact touch_copy_only_breaks_record. Qed.
+Print Assumptions C07_record_needs_copied_record_for_converted_query.
 
 (* ---- (3) caches are never stale ------------------------------------------------ *)
 
